@@ -122,42 +122,49 @@ theorem PL_extrasLines (es : List (Str × Str)) : ∀ (ls : List (List Nat)),
     · exact PL_block (fun c hc => isPrint_of_upper ((extraKey_facts hk).1.2.2 c hc)) (PL_isText ht) _ l hl
     · exact ih ls.tail (fun x hx => h x (by simp [hx])) l hl
 
-theorem PL_qualLines (k v : Str) (bs : List Nat) (h : wfQual (k, v) = true) : ∀ l ∈ qualLines k v bs, PL l := by
+theorem PL_qualLines (k v : Str) (bs : List Nat) (st : Nat) (h : wfQual (k, v) = true) : ∀ l ∈ qualLines k v bs st, PL l := by
   simp only [wfQual, Bool.and_eq_true, bne_iff_ne, ne_eq, List.all_eq_true] at h
   obtain ⟨⟨_, hk⟩, hv⟩ := h
   have hkp : PL k := by
     intro c hc; have := hk c hc
-    simp only [isQualKeyChar, isLower, isDigit, isPrint, Bool.or_eq_true, Bool.and_eq_true, decide_eq_true_eq, beq_iff_eq] at *
+    simp only [isQualKeyChar, Bool.or_eq_true, beq_iff_eq] at this
     rcases this with (h | h) | h
-    · omega
-    · omega
+    · exact isPrint_of_letter h
+    · exact isPrint_of_digit h
     · subst h; decide
   have hvp : PL v := fun c hc => (hv c hc).1
+  have hhead : PL (spaces 21 ++ c!"/" ++ k) := PL_append (PL_append (PL_spaces 21) (by decide)) hkp
   unfold qualLines
-  apply PL_hang
-  · exact PL_append (PL_append (PL_append (PL_spaces 21) (by decide)) hkp) (by decide)
-  · apply PL_closeLast
-    unfold valueChunks; split
-    · exact PL_cutText bs hvp
-    · exact PL_wrapText bs hvp
+  split
+  · intro l hl; simp only [List.mem_singleton] at hl; subst hl; exact hhead
+  · split
+    · intro l hl; simp only [List.mem_singleton] at hl; subst hl
+      exact PL_append (PL_append hhead (by decide)) hvp
+    · apply PL_hang
+      · exact PL_append hhead (by decide)
+      · apply PL_closeLast
+        unfold valueChunks; split
+        · exact PL_cutText bs hvp
+        · exact PL_wrapText bs hvp
 
-theorem PL_qualsLines (qs : List (Str × Str)) : ∀ (ls : List (List Nat)), (∀ q ∈ qs, wfQual q = true) →
-    ∀ l ∈ qualsLines qs ls, PL l := by
+theorem PL_qualsLines (qs : List (Str × Str)) : ∀ (ls : List (List Nat)) (sts : List Nat), (∀ q ∈ qs, wfQual q = true) →
+    ∀ l ∈ qualsLines qs ls sts, PL l := by
   induction qs with
-  | nil => intro ls _ l hl; simp [qualsLines] at hl
+  | nil => intro ls sts _ l hl; simp [qualsLines] at hl
   | cons q r ih =>
-    intro ls h l hl
+    intro ls sts h l hl
     obtain ⟨k, v⟩ := q
     rw [qualsLines_cons] at hl
     rcases List.mem_append.mp hl with hl | hl
-    · exact PL_qualLines k v _ (h (k, v) (by simp)) l hl
-    · exact ih ls.tail (fun x hx => h x (by simp [hx])) l hl
+    · exact PL_qualLines k v _ _ (h (k, v) (by simp)) l hl
+    · exact ih ls.tail sts.tail (fun x hx => h x (by simp [hx])) l hl
 
-theorem PL_featLines (f : RFeature) (ℓ : FeatLayout) (h : wfFeature f = true) : ∀ l ∈ featLines f ℓ, PL l := by
-  simp only [wfFeature, Bool.and_eq_true, bne_iff_ne, ne_eq, decide_eq_true_eq, List.all_eq_true] at h
-  obtain ⟨⟨⟨⟨⟨⟨_, _⟩, h3⟩, _⟩, h5⟩, h6⟩, _⟩ := h
+theorem PL_featLines (f : RFeature) (ℓ : FeatLayout) (h : wfFeatureLoose f = true) : ∀ l ∈ featLines f ℓ, PL l := by
+  obtain ⟨hk, _, h5, h6⟩ := wfFeatureLoose_parts h
   have hkp : PL f.key := by
-    intro c hc; have := h3 c hc
+    intro c hc
+    simp only [wfFeatureLoose, Bool.and_eq_true, List.all_eq_true] at h
+    have := h.1.1.1.1.2 c hc
     simp only [isFeatKeyChar, Bool.or_eq_true, beq_iff_eq] at this
     rcases this with (((h | h) | h) | h) | h
     · exact isPrint_of_letter h
@@ -176,9 +183,9 @@ theorem PL_featLines (f : RFeature) (ℓ : FeatLayout) (h : wfFeature f = true) 
   simp only [featLines, List.mem_append] at hl
   rcases hl with hl | hl
   · exact PL_hang (PL_padRight (PL_append (PL_spaces 5) hkp) 21) 21 _ (PL_cutLoc _ hlp) l hl
-  · exact PL_qualsLines _ _ h6 l hl
+  · exact PL_qualsLines _ _ _ h6 l hl
 
-theorem PL_featsLines (fs : List RFeature) : ∀ (ls : List FeatLayout), (∀ f ∈ fs, wfFeature f = true) →
+theorem PL_featsLines (fs : List RFeature) : ∀ (ls : List FeatLayout), (∀ f ∈ fs, wfFeatureLoose f = true) →
     ∀ l ∈ featsLines fs ls, PL l := by
   induction fs with
   | nil => intro ls _ l hl; simp [featsLines] at hl
@@ -249,22 +256,40 @@ theorem PL_locusLine (l : RLocus) (n : Nat) (ℓ : RecLayout) (h : wfLocus l = t
   repeat' apply PL_append
   all_goals first | exact PL_spaces _ | exact hn | exact hm | exact ht | exact hd | exact hdt | exact PL_ofNat _ | decide
 
+theorem PL_mblock (om : Bool) {kw t : Str} (hk : PL kw) (ht : PL t) (bs : List Nat) : ∀ l ∈ mblock om kw t bs, PL l := by
+  unfold mblock; split
+  · simp
+  · exact PL_block hk ht bs
+
 /-- every line of a laid-out record is printable -/
-theorem PL_layout (r : GbRec) (ℓ : RecLayout) (h : wf r = true) : ∀ l ∈ layout r ℓ, PL l := by
-  simp only [wf, Bool.and_eq_true, decide_eq_true_eq, List.all_eq_true] at h
+theorem PL_layout (r : GbRec) (ℓ : RecLayout) (h : wfLoose r = true) : ∀ l ∈ layout r ℓ, PL l := by
+  simp only [wfLoose, Bool.and_eq_true, decide_eq_true_eq, List.all_eq_true] at h
   obtain ⟨⟨⟨⟨⟨⟨⟨⟨⟨⟨⟨⟨hlocus, hdef⟩, hacc⟩, hver⟩, hkey⟩, hsrc⟩, horg⟩, hrefs⟩, hex⟩, hexd⟩, hfeat⟩, hseq⟩, hlen⟩ := h
+  have hslot : ∀ k, ∀ l ∈ extraSlot r ℓ k, PL l := fun k =>
+    PL_extrasLines _ _ (fun e he => by simpa using hex e (List.mem_of_mem_drop (List.mem_of_mem_take he)))
+  have hrest : ∀ l ∈ extraRest r ℓ, PL l :=
+    PL_extrasLines _ _ (fun e he => by simpa using hex e (List.mem_of_mem_drop he))
   intro l hl
   simp only [layout, List.mem_append, List.mem_singleton, List.mem_cons, List.not_mem_nil, or_false] at hl
-  rcases hl with (((((((((((((hl | hl) | hl) | hl) | hl) | hl) | hl) | hl) | hl) | hl) | hl) | hl) | hl) | hl)
+  rcases hl with ((((((((((((((((((hl | hl) | hl) | hl) | hl) | hl) | hl) | hl) | hl) | hl) | hl) | hl) | hl) | hl) | hl) | hl) | hl) | hl) | hl)
   · subst hl; exact PL_locusLine _ _ _ hlocus
-  · exact PL_block (by decide) (PL_isText hdef) _ l hl
-  · exact PL_block (by decide) (PL_isText hacc) _ l hl
-  · exact PL_block (by decide) (PL_isText hver) _ l hl
-  · exact PL_block (by decide) (PL_isText hkey) _ l hl
-  · exact PL_block (by decide) (PL_isText hsrc) _ l hl
-  · exact PL_block (by decide) (PL_isText horg) _ l hl
+  · exact hslot 0 l hl
+  · exact PL_mblock _ (by decide) (PL_isText hdef) _ l hl
+  · exact hslot 1 l hl
+  · exact PL_mblock _ (by decide) (PL_isText hacc) _ l hl
+  · exact hslot 2 l hl
+  · exact PL_mblock _ (by decide) (PL_isText hver) _ l hl
+  · exact hslot 3 l hl
+  · exact PL_mblock _ (by decide) (PL_isText hkey) _ l hl
+  · exact hslot 4 l hl
+  · unfold sourceBlock at hl; split at hl
+    · simp at hl
+    · rcases List.mem_append.mp hl with hl | hl
+      · exact PL_block (by decide) (PL_isText hsrc) _ l hl
+      · exact PL_block (by decide) (PL_isText horg) _ l hl
+  · exact hslot 5 l hl
   · exact PL_refsLines _ _ _ hrefs l hl
-  · exact PL_extrasLines _ _ (fun e he => by simpa using hex e he) l hl
+  · exact hrest l hl
   · subst hl; decide
   · exact PL_featsLines _ _ hfeat l hl
   · subst hl; split <;> decide
@@ -290,7 +315,7 @@ theorem join_snoc_nil (sep : Str) (L : List Str) (h : L ≠ []) : join sep (L ++
 theorem layout_ne_nil (r : GbRec) (ℓ : RecLayout) : layout r ℓ ≠ [] := by simp [layout]
 
 /-- `Split(text, "\n")` of a laid-out record gives its lines (and one empty line after a final newline) -/
-theorem split_layoutText (r : GbRec) (ℓ : RecLayout) (fnl : Bool) (h : wf r = true) :
+theorem split_layoutText (r : GbRec) (ℓ : RecLayout) (fnl : Bool) (h : wfLoose r = true) :
     split (layoutText r ℓ fnl) c!"\n" = layout r ℓ ++ (if fnl then [[]] else []) := by
   have hnl : ∀ l ∈ layout r ℓ, '\n' ∉ l := fun l hl => nl_not_mem_of_PL (PL_layout r ℓ h l hl)
   show splitC '\n' _ = _
@@ -308,12 +333,19 @@ theorem split_layoutText (r : GbRec) (ℓ : RecLayout) (fnl : Bool) (h : wf r = 
       · exact hnl l hl
       · simp at hl; subst hl; simp)
 
-/-- `parse` on the text of a laid-out record, with or without the final newline -/
-theorem parse_layoutText (r : GbRec) (ℓ : RecLayout) (fnl : Bool) (h : wf r = true) :
-    parse (layoutText r ℓ fnl) = .ok (toSequence r) := by
+/-- `parse` on the text of a laid-out record, with or without the final newline: what the parser's maps
+keep of it (repeated qualifier keys: the last value) -/
+theorem parse_layoutText_loose (r : GbRec) (ℓ : RecLayout) (fnl : Bool) (h : wfLoose r = true) :
+    parse (layoutText r ℓ fnl) = .ok (toSequenceM r) := by
   unfold parse
   rw [split_layoutText r ℓ fnl h]
-  apply parseLoop_layout r ℓ _ h
+  apply parseLoop_layout_loose r ℓ _ h
   intro l hl; cases fnl <;> simp at hl; exact hl
+
+/-- … and with pairwise distinct qualifier keys exactly what the record states -/
+theorem parse_layoutText (r : GbRec) (ℓ : RecLayout) (fnl : Bool) (h : wf r = true) :
+    parse (layoutText r ℓ fnl) = .ok (toSequence r) := by
+  obtain ⟨hl, hd⟩ := wf_loose h
+  rw [parse_layoutText_loose r ℓ fnl hl, toSequenceM_eq hd]
 
 end PolyVerif.Lemmas.Genbank
